@@ -63,7 +63,7 @@ def check_chart(ctx, chart, spec, ct, stage, lines, impl, metas):
     vals = [v for pl in api for _, v in pl["series"]]
     if spec["kind"] in ("xy", "bubble"):
         want_names = [n for n, _ in spec["series"]]
-        want_vals = [[float(p[1]) for p in pts] for _, pts in spec["series"]]
+        want_vals = [[None if p[1] is None else float(p[1]) for p in pts] for _, pts in spec["series"]]
     else:
         want_names = [n for n, _ in spec["series"]]
         want_vals = [[None if v is None else float(v) for v in vs] for _, vs in spec["series"]]
